@@ -287,6 +287,7 @@ def run(ctx):
             meta = dict(family="join-reentered", kind=fan["Type"], n=n, mc=None, nested=False, end=False)
             ctx.count("reentered_fanout_scenarios")
         explore(ctx, scn, meta, ctx.pick(5, 30), ["c05d", v])
+    i = child_join_family(ctx, i)
     # exhaustive schedules: 2-3 single-task branches / items
     for j, (kind, n, mc) in enumerate([("Parallel", 2, None), ("Parallel", 3, None), ("Map", 2, None), ("Map", 3, None), ("Map", 3, 1), ("Map", 3, 2), ("Map", 2, 1)]):
         i += 1
@@ -304,12 +305,92 @@ def run(ctx):
         explore(ctx, scn, dict(family="join-dfs", kind=kind, n=n, mc=mc, nested=False, end=False), 0, None, dfs=ctx.pick(200, 6000))
 
 
+def child_join_family(ctx, i0):
+    """Iterations that each launch a synchronous child execution (no Name given: the engine names the children), in a Map, in a Map nested in a Map and in
+    Parallel branches: every child's output lands at the position of the iteration that launched it, every item is worked on exactly once."""
+    import random as _r
+    from lsfverif.sim.world import make_random
+    child = {"StartAt": "Cw", "States": {"Cw": F.T("lat", End=True)}}
+    i = i0
+    for shape in ("map", "map-in-map", "map-in-map-mc", "parallel"):
+        for form in ("startExecution.sync:2", "startExecution.sync"):
+            for v in range(ctx.pick(2, 8)):
+                i += 1
+                if not ctx.mine(i):
+                    continue
+                rng = ctx.rng("childjoin", shape, form, v)
+                launch = {"Type": "Task", "Resource": "arn:aws:states:local:0123456789:states:" + form,
+                          "Parameters": {"StateMachineArn": "arn:aws:states:local:0123456789:stateMachine:child", "Input.$": "$"}, "OutputPath": "$.Output", "End": True}
+                leaf = {"StartAt": "Launch", "States": {"Launch": launch}}
+                n_out, n_in = rng.randint(2, 3), rng.randint(2, 3)
+                if shape == "map":
+                    items = [{"id": "o%d" % a, "w": a % 3} for a in range(n_out)]
+                    fan = {"Type": "Map", "ItemsPath": "$.items", "ItemProcessor": leaf}
+                    flat = [[it] for it in items]
+                elif shape == "parallel":
+                    items = None
+                    fan = {"Type": "Parallel", "Branches": [{"StartAt": "L%d" % b, "States": {"L%d" % b: dict(launch, Parameters=dict(launch["Parameters"], **{"Input.$": "$.b%d" % b}))}}
+                                                            for b in range(n_out)]}
+                else:
+                    items = [{"id": "o%d" % a, "w": 0, "items": [{"id": "o%d.i%d" % (a, b), "w": (a + b) % 3} for b in range(n_in)]} for a in range(n_out)]
+                    inner = {"Type": "Map", "ItemsPath": "$.items", "ItemProcessor": leaf, "End": True}
+                    if shape.endswith("mc"):
+                        inner["MaxConcurrency"] = rng.randint(1, n_in)
+                    fan = {"Type": "Map", "ItemsPath": "$.items", "ItemProcessor": {"StartAt": "Inner", "States": {"Inner": inner}}}
+                fan["End"] = True
+                data = {"items": items} if items is not None else {"b%d" % b: {"id": "p%d" % b, "w": b % 3} for b in range(n_out)}
+                want_of = lambda it: {"fn": "lat", "in": it}
+                if shape == "map":
+                    want = [want_of(it) for it in items]
+                elif shape == "parallel":
+                    want = [want_of(data["b%d" % b]) for b in range(n_out)]
+                else:
+                    want = [[want_of(x) for x in it["items"]] for it in items]
+                if form.endswith(".sync"):
+                    enc = lambda x: [enc(y) for y in x] if isinstance(x, list) else json.dumps(x)
+                scn = {"machines": {"m": {"asl": {"StartAt": "Fan", "States": {"Fan": fan}}}, "child": {"asl": child}}, "funcs": dict(FUNCS),
+                       "starts": [{"machine": "m", "name": "e0", "input": data}]}
+                for sno in range(ctx.pick(3, 8)):
+                    r = _r.Random("c05cj-%d-%d" % (i, sno))
+                    pol = None if sno == 0 else (lambda w, r=r: make_random(r))
+                    run = S.execute(scn, policy=pol, seed=ctx.seed)
+                    try:
+                        _sched.observe(ctx, run)
+                        ctx.evaluation(); ctx.count("child_join_runs"); ctx.count("joins_checked")
+                        ctx.distinct("schedules", [_sched.scn_key(scn), _sched.schedule_hash(run)]); ctx.nontrivial([shape, form, v, sno])
+                        st, out, err, t = run.outcomes.get(run.execs[0], ("NONE", None, None, None))
+                        got = out
+                        if form.endswith(".sync") and st == "SUCCEEDED":
+                            dec = lambda x: [dec(y) for y in x] if isinstance(x, list) else (json.loads(x) if isinstance(x, str) else x)
+                            try:
+                                got = dec(out)
+                            except Exception:
+                                got = out
+                        reqs = sorted(json.dumps(q["payload"], sort_keys=True) for q in run.requests.get("lat", []))
+                        leaves = [x for row in want for x in (row if isinstance(row, list) else [row])]
+                        exp_reqs = sorted(json.dumps(x["in"], sort_keys=True) for x in leaves)
+                        wit = lambda extra: S.witness_of(run, dict(extra, family="child-join", shape=shape, form=form, expected=want, engine=[st, out, err]))
+                        if not (st == "SUCCEEDED" and got == want):
+                            ctx.violation("J1-join-result-differs-from-reference", wit({}), None)
+                        if reqs != exp_reqs:
+                            ctx.violation("J3-item-not-processed-exactly-once", wit(dict(requests=reqs, expected_requests=exp_reqs)), None)
+                    finally:
+                        S.close(run)
+    return i
+
+
 def witnesses(ctx):
     pass
 
 
 def replay(ctx, doc):
     w = doc["witness"]
+    if w.get("family") == "child-join":
+        run = S.execute(w["scenario"], labels=w.get("schedule"), seed=w.get("seed", 0), monitors=("notes",))
+        print("expected", json.dumps(w["expected"]))
+        print("engine  ", run.outcomes, "requests", sorted(json.dumps(q["payload"], sort_keys=True) for q in run.requests.get("lat", [])))
+        S.close(run)
+        return
     exp = expected(w["scenario"])
     run = S.execute(w["scenario"], labels=w.get("schedule"), seed=w.get("seed", 0), monitors=("notes",))
     print("expected", exp, "engine", run.outcomes)
